@@ -3,6 +3,7 @@ package rules
 import (
 	"fmt"
 	"go/token"
+	"go/types"
 	"strings"
 	"sync"
 
@@ -878,6 +879,121 @@ func c11Elem(c *Ctx, F *model.Fields, fn *ssa.Function, elem string, tok string,
 				}
 			}
 			R.Check(reach[hrefLoop.Header], "C11.R1", elem, "(*Policy).sanitizeAttrs[elementName="+elem+"]: href discovery", c.P.Pos(lastPos(hrefLoop.Header)), "reached for this element", "the link-hardening code is not reached for <"+elem+">")
+			// … and it is entered whenever any of the five link options is on: every return that lies behind the gate and
+			// was reached without entering the block has all five options off (a gate that names one option twice and
+			// another not at all skips the block for policies that switched on only the forgotten one)
+			func() {
+				var opts []*pa.F
+				var tr []int
+				for _, role := range []string{"requireNoFollow", "requireNoFollowFQ", "requireNoReferrer", "requireNoReferrerFQ", "addTargetBlankFQ"} {
+					f := fl(role)
+					if f == nil || f.Op != 'a' {
+						R.Unknown("C11.R1", elem+":gate", "(*Policy).sanitizeAttrs[elementName="+elem+"]: gate of the hardening block", "", "option "+role+" not resolvable")
+						return
+					}
+					opts = append(opts, f)
+					tr = append(tr, f.Atom)
+				}
+				evIn := A.EventVar("hardening-block-entered")
+				tr = append(tr, evIn)
+				// "nothing survived" tests on the way to the block (an empty list has no link to harden)
+				var empties []*pa.F
+				for d := hrefLoop.Header.Idom(); d != nil; d = d.Idom() {
+					if iff, ok := d.Instrs[len(d.Instrs)-1].(*ssa.If); ok {
+						m := map[int]bool{}
+						A.Cond(iff.Cond).Atoms(m)
+						for a := range m {
+							isAttrs := false
+							if x := A.Atoms[a].X; x != nil {
+								if sl, ok := x.Type().Underlying().(*types.Slice); ok && strings.HasSuffix(sl.Elem().String(), "html.Attribute") {
+									isAttrs = true
+								}
+							}
+							if A.Atoms[a].Kind == "len0" && isAttrs && len(tr) < 12 {
+								dup := false
+								for _, t := range tr {
+									if t == a {
+										dup = true
+									}
+								}
+								if !dup {
+									tr = append(tr, a)
+									empties = append(empties, pa.AtomF(a))
+								}
+							}
+						}
+					}
+				}
+				savedFilter := A.PhiFilter
+				A.PhiFilter = func(*ssa.Phi) bool { return false }
+				qg, err := A.NewQuery(tr)
+				A.PhiFilter = savedFilter
+				if err != nil {
+					R.Unknown("C11.R1", elem+":gate", "(*Policy).sanitizeAttrs[elementName="+elem+"]: gate of the hardening block", "", err.Error())
+					return
+				}
+				qg.EdgeHook = func(b *ssa.BasicBlock, k int) func(uint32) []uint32 {
+					if b.Succs[k] == hrefLoop.Header || b.Succs[k] == region && region != nil && region.Dominates(hrefLoop.Header) && b != region {
+						return func(a uint32) []uint32 { return []uint32{qg.With(a, evIn, true)} }
+					}
+					return nil
+				}
+				qg.Run(fn.Blocks[0], qg.InitWith(map[int]bool{evIn: false}))
+				// the gate: the nearest dominator of the block's entry that branches
+				gate := hrefLoop.Header.Idom()
+				for gate != nil && len(gate.Succs) < 2 {
+					gate = gate.Idom()
+				}
+				// the whole option test (a chain of short-circuit tests) starts at the first dominator that tests an option
+				for d := gate; d != nil; d = d.Idom() {
+					if iff, ok := d.Instrs[len(d.Instrs)-1].(*ssa.If); ok {
+						m := map[int]bool{}
+						A.Cond(iff.Cond).Atoms(m)
+						for _, o := range opts {
+							if m[o.Atom] {
+								gate = d
+							}
+						}
+					}
+				}
+				if gate == nil {
+					R.Unknown("C11.R1", elem+":gate", "(*Policy).sanitizeAttrs[elementName="+elem+"]: gate of the hardening block", "", "gate not found")
+					return
+				}
+				behind := map[*ssa.BasicBlock]bool{}
+				st := []*ssa.BasicBlock{gate}
+				for len(st) > 0 {
+					b := st[len(st)-1]
+					st = st[:len(st)-1]
+					if behind[b] {
+						continue
+					}
+					behind[b] = true
+					st = append(st, b.Succs...)
+				}
+				var notAny []*pa.F
+				for _, o := range opts {
+					notAny = append(notAny, pa.Not(o))
+				}
+				goal := pa.Or(append([]*pa.F{pa.AtomF(evIn), pa.And(notAny...)}, empties...)...)
+				okG, cexG := true, ""
+				nr := 0
+				for _, b := range fn.Blocks {
+					r, isR := b.Instrs[len(b.Instrs)-1].(*ssa.Return)
+					if !isR || !behind[b] {
+						continue
+					}
+					nr++
+					stt := qg.StateAt(r)
+					if stt == nil {
+						continue
+					}
+					if ok1, cex := qg.Holds(stt, goal); !ok1 {
+						okG, cexG = false, cex
+					}
+				}
+				R.Check(okG && nr > 0, "C11.R1", elem+":gate", "(*Policy).sanitizeAttrs[elementName="+elem+"]: gate of the hardening block", c.P.Pos(lastPos(gate)), "skipped only when all five link options are off (or no attribute survived)", "the hardening block can be skipped although a link option is on: ["+cexG+"]")
+			}()
 		}
 		// R3 at the edges leaving the hardening region
 		n := 0
